@@ -9,6 +9,9 @@ PID = "C20"
 CFGS = {"quick": ["Measures.n4k3.cfg", "Measures.n5k2.cfg"], "thorough": ["Measures.n4k3.cfg", "Measures.n5k2.cfg", "Measures.n5k3.cfg", "Measures.n6k2.cfg", "Measures.n6k3.cfg"]}
 
 
+_BUF = {}
+
+
 def run(tier, seed):
     rep = H.Report(PID, tier, seed, "model_checking")
     H.import_opfython()
@@ -33,8 +36,20 @@ def run(tier, seed):
             n = len(lab)
             if lab != prd and k > 1:
                 nontrivial += 1
-            for conv, cname in ((list, "list"), (lambda v: np.array(v), "ndarray")):
-                L, P = conv(lab), conv(prd)
+            for conv, cname in ((list, "list"), (lambda v: np.array(v), "ndarray"), (None, "buffer")):
+                if conv is None:
+                    # the caller's own pair of work buffers, refilled in place for every evaluation (same objects, new contents)
+                    bl, bp = _BUF.setdefault(n, (np.zeros(n, dtype=np.int64), np.zeros(n, dtype=np.int64)))
+                    # (the previous evaluation through these buffers was of another pair: predictions and labels exchanged)
+                    bl[:], bp[:] = prd, lab
+                    try:
+                        g.opf_accuracy(bl, bp), g.opf_accuracy_per_label(bl, bp), g.confusion_matrix(bl, bp), g.purity(bl, bp)
+                    except Exception:
+                        pass            # the exchanged pair need not be in the domain
+                    bl[:], bp[:] = lab, prd
+                    L, P = bl, bp
+                else:
+                    L, P = conv(lab), conv(prd)
                 rp = {"labels": lab, "preds": prd, "input_type": cname}
                 try:
                     a = float(g.opf_accuracy(L, P))
@@ -153,7 +168,7 @@ def run(tier, seed):
                     break
     rep.cov["normalize_columns_compared"] = ncols
     rep.cov["exhaustive"] = True
-    rep.cov["rule"] = "all (labels, predictions) vectors with every class present, N and K as in the cfgs, each replayed into the five functions as lists and as ndarrays; vectors with 17..130 classes held as uint8/int8/int16/uint16/int32/int64 arrays and lists, expectations exported by TLC (MeasuresTrace) for exactly those vectors; normalize on integer-valued non-constant columns times scales 1e-12..1e6 against the z-score term"
+    rep.cov["rule"] = "all (labels, predictions) vectors with every class present, N and K as in the cfgs, each replayed into the five functions as lists, as fresh ndarrays and through a pair of work buffers refilled in place; vectors with 17..130 classes held as uint8/int8/int16/uint16/int32/int64 arrays and lists, expectations exported by TLC (MeasuresTrace) for exactly those vectors; normalize on integer-valued non-constant columns times scales 1e-12..1e6 against the z-score term"
     rep.assumptions = ["TLC computes the expected measures as exact rationals", "normalize: numeric comparison against the spec-held term (rtol 1e-9 with a conditioning allowance)", "exhaustive refers to the measure inputs within the bound; normalize is sampled"]
     return rep.finish()
 
